@@ -17,6 +17,8 @@ mod transposition;
 mod uci;
 mod util;
 mod zobrist;
+#[cfg(flounder_verif)]
+mod verif_seam;
 
 use uci::Flounder;
 
